@@ -15,7 +15,14 @@ use serde_json::{json, Value};
 #[derive(Clone, Debug, Serialize, Deserialize)]
 pub enum Case {
     Default { table: String, texts: Vec<DText> },
-    Psm { marks: Vec<char>, replacement: Option<String>, texts: Vec<String> },
+    Psm {
+        marks: Vec<char>,
+        replacement: Option<String>,
+        texts: Vec<String>,
+        /// the plugin runs after DefaultInputTextPlugin (shipped table), as in the shipped configuration: it works on the rewritten text
+        #[serde(default)]
+        after_default: bool,
+    },
     Yomi { chardef_test: bool, left: Vec<char>, right: Vec<char>, max_len: usize, texts: Vec<Vec<YP>> },
     /// a contiguous block of scalar values, each normalised alone with the shipped table
     Sweep { from: u32, to: u32, step: u32 },
@@ -153,7 +160,7 @@ pub fn render_yp(left: &[char], right: &[char], t: &[YP]) -> String {
 
 pub struct C07;
 
-const TAB_ALPHA: &[&str] = &["a", "b", "c", "A", "Ａ", "ア", "ｱ", "ﾞ", "㍿", "é", "É", "ー", "漢", "ǅ", "Σ", "𠮷", "\u{e0100}", "😀", "#"];
+const TAB_ALPHA: &[&str] = &["a", "b", "c", "A", "Ａ", "ア", "ｱ", "ﾞ", "㍿", "é", "É", "ー", "漢", "ǅ", "Σ", "𠮷", "\u{e0100}", "😀", "#", "か", "\u{3099}", "\u{309a}", "e\u{301}"];
 /// alphabet of the enumerated keys of big tables (1-3 symbols: short keys are prefixes and infixes of longer ones)
 const BIG_ALPHA: &[&str] = &["ぁ", "い", "ぅ", "え", "お", "か", "ｶ", "ﾞ", "う", "ぃ", "𠮷", "z"];
 
@@ -165,8 +172,23 @@ pub fn rewrite_table() -> BoxedStrategy<String> {
     let ext = (any::<u16>(), select(TAB_ALPHA), select(vec!["y", "ガ", "A", "京"]));
     // tables of hundreds of keys (sizes around 2^k up to 1,100; the shipped table has 182)
     let big = prop::option::weighted(0.04, (crate::gen::boundary_len(1100), any::<u16>()));
-    (vec(pair, 0..8), vec(ext, 0..4), vec(ignore, 0..4), big)
-        .prop_map(|(mut pairs, exts, ign, big)| {
+    // one table in ten is the shipped one (182 keys, each of which contains a voiced sound mark: no key is made of
+    // characters that are lower-case and normalised already), or a table whose every key contains a combining mark
+    let special = prop_oneof![
+        18 => Just(0u8),
+        1 => Just(1u8),
+        1 => Just(2u8),
+    ];
+    (vec(pair, 0..8), vec(ext, 0..4), vec(ignore, 0..4), big, special)
+        .prop_map(|(mut pairs, exts, ign, big, special)| {
+            if special == 1 {
+                return read_src("rewrite.def", &FileSrc::Shipped);
+            }
+            if special == 2 {
+                for (i, p) in pairs.iter_mut().enumerate() {
+                    p.0.push_str(["\u{3099}", "\u{309a}", "ﾞ"][i % 3]);
+                }
+            }
             if let Some((n, rot)) = big {
                 let b = BIG_ALPHA.len();
                 for i in 0..n {
@@ -222,7 +244,9 @@ fn table_text(max: usize) -> BoxedStrategy<Vec<TP>> {
 fn psm_text(max: usize) -> BoxedStrategy<String> {
     let ch = prop_oneof![
         8 => select(vec!['ー', '-', '⁓', '〜', '〰', '~', ']', '^', '\\', '[', '&']),
-        4 => select(vec!['あ', 'ア', 'a', 'x', '京']),
+        // compatibility forms that the default plugin turns into marks
+        2 => select(vec!['ｰ', '－', '～', '＾', '＆', '［']),
+        4 => select(vec!['あ', 'ア', 'a', 'x', '京', 'ｽ', 'ﾊ', 'ﾟ', 'A']),
         1 => pool_char(),
     ];
     vec(ch, 0..=max).prop_map(|v| v.into_iter().collect()).boxed()
@@ -336,8 +360,9 @@ impl Property for C07 {
             prop::sample::subsequence(vec!['ー', '-', '⁓', '〜', '〰', '~', ']', '^', '\\', '[', '&'], 1..=6),
             prop::option::of(select(vec!["ー".to_string(), "-".to_string(), "ーー".to_string(), "x".to_string(), "".to_string()])),
             vec(psm_text(n), 1..=6),
+            prop::bool::weighted(0.35),
         )
-            .prop_map(|(marks, replacement, texts)| Case::Psm { marks, replacement, texts });
+            .prop_map(|(marks, replacement, texts, after_default)| Case::Psm { marks, replacement, texts, after_default });
         let yomi = (
             any::<bool>(),
             prop::sample::subsequence(vec!['(', '（', '[', '《'], 1..=3),
@@ -453,8 +478,14 @@ impl Property for C07 {
                     }
                 }
             }
-            Case::Psm { marks, replacement, texts } => {
-                let cfg = base_cfg(vec![InputPlugin::Psm { marks: marks.clone(), replacement: replacement.clone() }], FileSrc::Shipped);
+            Case::Psm { marks, replacement, texts, after_default } => {
+                let mut plugins = vec![InputPlugin::Psm { marks: marks.clone(), replacement: replacement.clone() }];
+                if *after_default {
+                    plugins.insert(0, InputPlugin::Default { rewrite: FileSrc::Shipped });
+                    rep.class("psm after the default plugin");
+                }
+                let shipped = if *after_default { Some(RewriteTable::parse(&read_src("rewrite.def", &FileSrc::Shipped))) } else { None };
+                let cfg = base_cfg(plugins, FileSrc::Shipped);
                 let l = match load_with(ctx, &cfg) {
                     Ok(l) => l,
                     Err(_) => {
@@ -471,7 +502,20 @@ impl Property for C07 {
                             return rep;
                         }
                     };
-                    let want = normalize_psm(marks, &sym, x).text;
+                    // after the default plugin: the marks are looked for in the text that plugin produced (half-width and
+                    // full-width marks have become the plain ones there)
+                    let (mid, alt) = match &shipped {
+                        Some(t) => reference_default(t, x),
+                        None => (x.clone(), None),
+                    };
+                    let want = normalize_psm(marks, &sym, &mid).text;
+                    if got != want && alt.as_ref().map(|a| normalize_psm(marks, &sym, a).text) == Some(got.clone()) {
+                        rep.class("psm: title-case reading");
+                        continue;
+                    }
+                    if mid != *x && want != mid {
+                        rep.class("psm collapsed a run of the text rewritten by the default plugin");
+                    }
                     if got != want {
                         rep.fail("psm-reference", format!("marks {:?} symbol {:?} text {:?}: plugin gives {:?}, reference {:?}", marks, sym, x, got, want));
                         return rep;
